@@ -316,6 +316,10 @@ func TestVerifC05(t *testing.T) {
 	}
 	for _, s := range scns {
 		n, cut := w.Explore(level, s, maxRuns)
+		if cut {
+			// too many schedules to enumerate: add as many uniformly random walks through the schedule tree
+			w.Sample(level, s, maxRuns, rng.Intn)
+		}
 		w.Comment(fmt.Sprintf("scenario %s threads=%d schedules=%d truncated=%v", s.Name, len(s.Threads), n, cut))
 	}
 
